@@ -7,7 +7,7 @@ microsecond of dense windows around zero / the epoch.
 from __future__ import annotations
 
 import json
-from datetime import datetime, timedelta, timezone
+from datetime import datetime, timedelta, timezone, tzinfo
 from typing import Any, Dict, List, Tuple
 
 import betterproto
@@ -160,21 +160,42 @@ def check_duration(us: int, t: Tally) -> List[Violation]:
     return out
 
 
+class SeasonalZone(tzinfo):
+    """A zone whose UTC offset depends on the date (+01:00, +02:00 from April to September), like
+    every zone with daylight saving time.  ONE object is shared by all datetimes of a run."""
+
+    def dst(self, dt):
+        return timedelta(hours=1) if dt is not None and 4 <= dt.month <= 9 else timedelta(0)
+
+    def utcoffset(self, dt):
+        return timedelta(hours=1) + self.dst(dt)
+
+    def tzname(self, dt):
+        return "SEASONAL"
+
+
+SEASONAL = SeasonalZone()
+
+
 def tclass(us: int, off: int) -> str:
     era = "pre-epoch" if us < 0 else ("epoch" if us == 0 else "post-epoch")
     frac = "-frac" if us % 10**6 else "-whole"
     big = "-far" if abs(us) >= 2**53 else ""
-    return era + frac + big + ("-utc" if off == 0 else "-offset")
+    return era + frac + big + ("-utc" if off == 0 else "-seasonal-zone" if off == "seasonal" else "-offset")
 
 
 def check_timestamp(us: int, off_min: int, t: Tally) -> List[Violation]:
     bp, ref = state()
     out: List[Violation] = []
-    tz = timezone(timedelta(minutes=off_min)) if off_min else timezone.utc
+    if off_min == "seasonal":
+        tz = SEASONAL
+    else:
+        tz = timezone(timedelta(minutes=off_min)) if off_min else timezone.utc
     try:
         dt = (av.EPOCH + us * US).astimezone(tz)
-    except OverflowError:
+    except (OverflowError, ValueError):
         return out  # instant not representable in that zone within 0001-9999
+    # (the numeric-offset JSON text below is only built for fixed offsets)
     t.inc("instants")
 
     def bad(oracle: str, detail: str):
@@ -234,7 +255,7 @@ def check_timestamp(us: int, off_min: int, t: Tally) -> List[Violation]:
         t.inc("edges")
         if back != dt:
             bad("json-in", f"from_dict({want_js!r}) gives {back!r}")
-        if off_min:
+        if off_min and isinstance(off_min, int) and not isinstance(off_min, bool):
             # RFC 3339 text with a numeric offset (legal proto3 JSON input; the reference is the
             # arbiter of what instant it denotes)
             text = dt.strftime("%Y-%m-%dT%H:%M:%S") + (".%06d" % dt.microsecond if dt.microsecond else "")
@@ -282,6 +303,16 @@ def _shard(shard: int, nshards: int, extra) -> Tally:
                 continue
             for v in check_timestamp(us, off, t):
                 t.violate(v, cap_per_sig=2)
+    for us in tstruct:
+        i += 1
+        if i % nshards != shard:
+            continue
+        # the instant and the one half a year later (other side of the offset change), both
+        # through the ONE shared zone object, in this order and in this process
+        for us2 in (us, us + 182 * 86400 * 10**6, us - 182 * 86400 * 10**6):
+            if Y1 * 10**6 <= us2 <= Y9999 * 10**6 + 999999:
+                for v in check_timestamp(us2, "seasonal", t):
+                    t.violate(v, cap_per_sig=2)
     for us in tdense:
         i += 1
         if i % nshards != shard:
